@@ -106,7 +106,7 @@ fn gen_name(r: &mut Rng) -> Labels {
         n.push(l);
         if !valid(&n) { n.pop(); break; }
     }
-    if r.chance(1, 20) {
+    if r.chance(1, 70) {
         // the maximal number of labels: 127 one-octet labels (255 octets with the root), or a few less
         let count = *r.pick(&[127usize, 127, 127, 126, 126, 125, 124, 100, 64]);
         let fill = gen_octet(r);
@@ -231,6 +231,8 @@ fn label_cases(out: &mut Out, r: &mut Rng, n: u64) {
     for b in 0..=255u8 {
         let c = format!("lower {}", b);
         out.case(&c, &format!("{}", b.to_ascii_lowercase()), b.is_ascii_uppercase(), "lower");
+        out.case(&format!("stdlower {}", b), &format!("{}", b.to_ascii_lowercase()), b.is_ascii_uppercase(), "stdlower");
+        chk(out, (b.to_ascii_lowercase() == b'x').eq(&(b == b'x' || b == b'X')) && [b].eq_ignore_ascii_case(&[lc(b)]) && { let mut v = [b]; v.make_ascii_lowercase(); v[0] == lc(b) }, "ascii_lowercase", &c, "eq_ignore_ascii_case / make_ascii_lowercase");
         chk(out, b.to_ascii_lowercase() == lc(b), "ascii_lowercase", &c, "");
     }
     let mut corpus: Vec<(Vec<u8>, Vec<u8>)> = vec![
@@ -321,6 +323,14 @@ fn name_cases(out: &mut Out, r: &mut Rng, n: u64) {
         out.case(&format!("ccmpi {}", pair), &format!("Ok {}", ord(it.comp)), nt, "ccmpi");
         let (ha, hb) = (feed(&fa), feed(&fb));
         if i % 2 == 0 { out.case(&format!("nhash {}", hex(&wa)), &format!("Ok {}", hex(&ha)), true, "nhash"); }
+        // what Name::from_octets accepts (the premise of the flat-name theorems)
+        if i % 4 == 0 {
+            let mut w = wa.clone();
+            match r.below(6) { 0 => {}, 1 => { w.pop(); }, 2 => { w.push(0); }, 3 => { if !w.is_empty() { let k = r.below(w.len() as u64) as usize; w[k] = *r.pick(&[0u8, 1, 63, 64, 0x80, 0xC0, 0xFF]); } },
+                4 => { let k = r.below(w.len() as u64 + 1) as usize; w.insert(k, r.u8()); }, _ => { w.extend_from_slice(&[63]); w.extend_from_slice(&[b'x'; 63]); w.push(0); } }
+            let ok = Name::from_octets(w.clone()).is_ok();
+            out.case(&format!("nacc {}", hex(&w)), &format!("{}", ok), !ok, "nacc");
+        }
         // the operators (Ord::cmp as used by BTreeMap, sort_by, max)
         out.case(&format!("nord {}", pair), &show(catch({ let (x, y) = (fa.clone(), fb.clone()); move || x.cmp(&y) }), |o| ord(*o).to_string()), nt, "nord");
         {
@@ -580,6 +590,9 @@ fn suffix_cases(out: &mut Out, r: &mut Rng, n: u64) {
         let (p2, fb) = (pa.clone(), flat(&b));
         let obs = catch(move || { let mut q = p2; for _ in 0..steps { q.parent(); } let o = ops(&q, &fb); format!("Ok {} {} {} {} {}", o.eq, ord(o.cmp), ord(o.comp), ord(o.lcomp), hex(&feed(&q))) });
         out.case(&c, &obs.unwrap_or_else(|_| "Panic".into()), true, "psuf");
+        let (p2, fb) = (pa.clone(), flat(&b));
+        let obs = catch(move || { let mut q = p2; for _ in 0..steps { let _ = q.split_first(); } let o = ops(&q, &fb); format!("Ok {} {} {} {} {}", o.eq, ord(o.cmp), ord(o.comp), ord(o.lcomp), hex(&feed(&q))) });
+        out.case(&format!("ssuf {} {} {} {}", hex(&m), pos, steps, hex(&wire_abs(&b))), &obs.unwrap_or_else(|_| "Panic".into()), true, "ssuf");
         derived(out, &pa, &a, &b, &c);
     }
 }
@@ -774,19 +787,43 @@ fn rdata_cases(out: &mut Out, r: &mut Rng, n: u64) {
         let (x, y) = match (parse_rd(rt, &wx), parse_rd(rt, &wy)) { (Some(x), Some(y)) => (x, y), _ => { out.count("rdata_unparseable"); continue; } };
         out.oracle_case(&c, wx != wy, &format!("rdata_{}", tname));
         rdata_pair(out, tname, rt, &x, &y, &c);
-        // T2: ==, canonical_cmp and the Hasher tokens of typed values (types of the T1 table)
-        if TABLE_TYPES.contains(&rt) && i % 2 == 1 {
-            let val = |f: &F| -> String { match f {
-                F::U8(x) => format!("{}", x), F::U16(x) => format!("{}", x), F::U32(x) => format!("{}", x),
-                F::Name(n) => hex(&wire_abs(n)), F::Str(v) | F::Pfx(v) | F::Tag(v) | F::Tail(v, _) | F::Fixed(v) => hex(v),
-                F::Bitmap(ts) => hex(&bitmap_wire(ts)), _ => "?".into() } };
-            let va: Vec<String> = fs.iter().map(val).collect();
-            let vb: Vec<String> = gs.iter().map(val).collect();
-            let t2 = format!("rdx {} {} | {}", rt, va.join(" "), vb.join(" "));
-            let (x2, y2) = (x.clone(), y.clone());
-            let oo = |o: Option<Ordering>| match o { Some(x) => ord(x), None => "None" };
-            if let Ok(obs) = catch(move || format!("{} {} {} {} {} {}", x2 == y2, ord(x2.canonical_cmp(&y2)), ord(x2.cmp(&y2)), oo(x2.partial_cmp(&y2)), ord(x2.canonical_cmp(&y2)), toks(&x2))) {
-                out.case(&t2, &obs, wx != wy, "rdx");
+        // T2: ==, canonical_cmp, cmp, partial_cmp and the Hasher tokens of typed values (types of the T1 tables)
+        if (TABLE_TYPES.contains(&rt) || [1u16, 28, 16, 64, 65, 45].contains(&rt)) && i % 2 == 1 {
+            fn vals(rt: u16, fs: &[F]) -> Option<(u32, Vec<String>)> {
+                let val = |f: &F| -> String { match f {
+                    F::U8(x) => format!("{}", x), F::U16(x) => format!("{}", x), F::U32(x) => format!("{}", x),
+                    F::Name(n) => hex(&wire_abs(n)), F::Str(v) | F::Pfx(v) | F::Tag(v) | F::Tail(v, _) | F::Fixed(v) => hex(v),
+                    F::Bitmap(ts) => hex(&bitmap_wire(ts)), F::Strs(_) | F::Params(_) => { let mut w = vec![]; f_wire(f, &mut w); hex(&w) }
+                    F::Gw(..) => "?".into() } };
+                if rt == 45 {
+                    if let (F::U8(p), F::Gw(k, alg, addr, name), F::Tail(key, _)) = (&fs[0], &fs[1], &fs[2]) {
+                        let mut v = vec![format!("{}", p), format!("{}", k), format!("{}", alg)];
+                        match k { 1 => v.push(hex(&addr[..4])), 2 => v.push(hex(&addr[..16])), 3 => v.push(hex(&wire_abs(name))), _ => {} }
+                        v.push(hex(key));
+                        return Some((45000 + *k as u32, v));
+                    }
+                    return None;
+                }
+                Some((rt as u32, fs.iter().map(val).collect()))
+            }
+            if let (Some((ca_, va)), Some((cb_, vb))) = (vals(rt, &fs), vals(rt, &gs)) {
+                if ca_ == cb_ {
+                    let t2 = format!("rdx {} {} | {}", ca_, va.join(" "), vb.join(" "));
+                    let (x2, y2) = (x.clone(), y.clone());
+                    let oo = |o: Option<Ordering>| match o { Some(x) => ord(x), None => "None" };
+                    if let Ok(obs) = catch(move || format!("{} {} {} {} {} {}", x2 == y2, ord(x2.canonical_cmp(&y2)), ord(x2.cmp(&y2)), oo(x2.partial_cmp(&y2)), ord(x2.canonical_cmp(&y2)), toks(&x2))) {
+                        out.case(&t2, &obs, wx != wy, "rdx");
+                    }
+                    // whole records with this data: ==, cmp, partial_cmp
+                    if i % 4 == 1 {
+                        let oa = gen_name(r); let ob = if r.chance(1, 2) { oa.clone() } else { near_name(r, &oa) };
+                        let (cla, clb) = (*r.pick(&[1u16, 1, 3]), *r.pick(&[1u16, 1, 3]));
+                        let ra = Record::new(flat(&oa), Class::from_int(cla), Ttl::from_secs(r.below(9) as u32), x.clone());
+                        let rb = Record::new(flat(&ob), Class::from_int(clb), Ttl::from_secs(r.below(9) as u32), y.clone());
+                        let t3 = format!("reco {} {} {} {} | {} {} {}", ca_, hex(&wire_abs(&oa)), cla, va.join(" "), hex(&wire_abs(&ob)), clb, vb.join(" "));
+                        if let Ok(obs) = catch(move || format!("{} {} {} {}", ra == rb, ord(ra.cmp(&rb)), oo(ra.partial_cmp(&rb)), toks(&ra))) { out.case(&t3, &obs, true, "reco"); }
+                    }
+                }
             }
         }
         // T2: Hasher tokens of the types outside the table
@@ -870,11 +907,24 @@ fn rdata_cases(out: &mut Out, r: &mut Rng, n: u64) {
         let c = format!("unknown 65280 65281 {}", hex(&d));
         out.oracle_case(&c, true, "rdata_unknown_types");
         chk(out, !(x == y) || feed(&x) == feed(&y), "unknown_rdata_ignores_rtype", &c, "equal although the types differ, and hashed differently");
+        out.case(&format!("rdh 65280 o:{}", hex(&d)), &toks(&x), true, "rdh");
     }
 }
 
 // -------------------------------------------------------------- records
 
+/// the RDATA octets of the records of a message without question section, as they stand in the message
+fn raw_rdata(m: &[u8]) -> Vec<Vec<u8>> {
+    let mut out = vec![]; let mut p = 12;
+    while p < m.len() {
+        loop { if p >= m.len() { return out; } let b = m[p]; if b == 0 { p += 1; break; } if b >= 0xC0 { p += 2; break; } p += 1 + b as usize; }
+        if p + 10 > m.len() { return out; }
+        let rdlen = u16::from_be_bytes([m[p + 8], m[p + 9]]) as usize; p += 10;
+        if p + rdlen > m.len() { return out; }
+        out.push(m[p..p + rdlen].to_vec()); p += rdlen;
+    }
+    out
+}
 type Rec = Record<FName, ZD>;
 fn record_cases(out: &mut Out, r: &mut Rng, n: u64) {
     for i in 0..n {
@@ -936,7 +986,7 @@ fn record_cases(out: &mut Out, r: &mut Rng, n: u64) {
             let want = rfc_name_cmp(&oa, &ob).then(rt.cmp(&rtb)).then(ca.cmp(&cb)).then(ta.cmp(&tb)).then((wx.len() as u16).cmp(&(wy.len() as u16)));
             chk(out, h1.cmp(&h2) == want, "header_order", &c, &format!("{} want {}", ord(h1.cmp(&h2)), ord(want)));
             let t2 = format!("hdr {} {} {} {} {} {} {} {} {} {}", hex(&wire_abs(&oa)), rt, ca, ta, wx.len(), hex(&wire_abs(&ob)), rtb, cb, tb, wy.len());
-            out.case(&t2, &format!("{} {}", h1 == h2, ord(h1.cmp(&h2))), true, "hdr");
+            out.case(&t2, &format!("{} {} {}", h1 == h2, ord(h1.cmp(&h2)), toks(&h1)), true, "hdr");
         }
         // T2: the record order with opaque record data
         if i % 2 == 0 {
@@ -971,6 +1021,14 @@ fn record_cases(out: &mut Out, r: &mut Rng, n: u64) {
                                 let c2 = format!("{} via {}", c, hex(&mbytes));
                                 let (p0, p1) = (&prs[0], &prs[1]);
                                 chk(out, p0 == p0 && p1 == p1 && (p0 == p1) == (p1 == p0), "parsed_record_eq_equiv", &c2, "");
+                                if !tree {
+                                    let raws = raw_rdata(&mbytes);
+                                    if raws.len() == 2 {
+                                        let (d0, d1) = (raws[0].clone(), raws[1].clone());
+                                        let line = |p: &domain::base::record::ParsedRecord<'_, Bytes>, o: &Labels, d: &Vec<u8>| format!("{} {} {} {} {} {}", hex(&wire_abs(o)), p.rtype().to_int(), p.class().to_int(), p.ttl().as_secs(), p.rdlen(), hex(d));
+                                        out.case(&format!("preq {} {}", line(p0, &oa, &d0), line(p1, &ob, &d1)), &format!("{}", p0 == p1), true, "preq");
+                                    }
+                                }
                                 if p0 == p1 { chk(out, eq, "parsed_record_eq_implies_record_eq", &c2, ""); }
                             }
                         }
@@ -1098,21 +1156,26 @@ fn svcb_cases(out: &mut Out, r: &mut Rng, n: u64) {
     // TSIG and OPT (pseudo record types) through AllRecordData: canonical order against the canonical form
     for i in 0..n {
         let mut tagged: Option<Vec<String>> = None;
+        let mut rdx_line: Option<String> = None;
         let (rt, wx, wy) = if i % 3 == 0 {
             let o1: Vec<u8> = (0..r.below(3)).flat_map(|_| { let v = gen_small(r, 0, 3); let mut w = vec![0, r.range(8, 12) as u8, 0, v.len() as u8]; w.extend_from_slice(&v); w }).collect();
             let o2 = if r.chance(1, 3) { o1.clone() } else { near_octets(r, &o1, 0, 40) };
             tagged = Some(vec![format!("o:{}", hex(&o1))]);
+            rdx_line = Some(format!("rdx 41 {} | {}", hex(&o1), hex(&o2)));
             (41u16, o1, o2)
         } else {
             let tsig = |alg: &Labels, time: u64, fudge: u16, mac: &Vec<u8>, id: u16, err: u16, other: &Vec<u8>| { let mut v = wire_abs(alg);
                 v.extend_from_slice(&time.to_be_bytes()[2..]); v.extend_from_slice(&fudge.to_be_bytes()); v.extend_from_slice(&(mac.len() as u16).to_be_bytes()); v.extend_from_slice(mac);
                 v.extend_from_slice(&id.to_be_bytes()); v.extend_from_slice(&err.to_be_bytes()); v.extend_from_slice(&(other.len() as u16).to_be_bytes()); v.extend_from_slice(other); v };
             let alg = gen_name(r); let time = r.next() >> 16; let fudge = r.u16(); let mac = gen_small(r, 0, 4); let id = r.u16(); let err = r.below(20) as u16; let other = gen_small(r, 0, 3);
-            let w1 = tsig(&alg, time, fudge, &mac, id, err, &other);
+            let f1 = (alg.clone(), time, fudge, mac.clone(), id, err, other.clone());
+            let f2 = match r.below(8) { 0 => f1.clone(), 1 => (near_name(r, &alg), time, fudge, mac.clone(), id, err, other.clone()), 2 => (alg.clone(), time ^ (1 << r.below(48)), fudge, mac.clone(), id, err, other.clone()),
+                3 => (alg.clone(), time, fudge.wrapping_add(1), mac.clone(), id, err, other.clone()), 4 => (alg.clone(), time, fudge, near_octets(r, &mac, 0, 300), id, err, other.clone()),
+                5 => (alg.clone(), time, fudge, mac.clone(), id.swap_bytes(), err, other.clone()), 6 => (alg.clone(), time, fudge, mac.clone(), id, err ^ 1, other.clone()), _ => (alg.clone(), time, fudge, mac.clone(), id, err, near_octets(r, &other, 0, 300)) };
+            let (w1, w2) = (tsig(&f1.0, f1.1, f1.2, &f1.3, f1.4, f1.5, &f1.6), tsig(&f2.0, f2.1, f2.2, &f2.3, f2.4, f2.5, &f2.6));
             tagged = Some(vec![format!("n:{}", hex(&wire_abs(&alg))), format!("q:{}", time), format!("w:{}", fudge), format!("l:{}", hex(&mac)), format!("w:{}", id), format!("w:{}", err), format!("l:{}", hex(&other))]);
-            let w2 = match r.below(8) { 0 => w1.clone(), 1 => tsig(&near_name(r, &alg), time, fudge, &mac, id, err, &other), 2 => tsig(&alg, time ^ (1 << r.below(48)), fudge, &mac, id, err, &other),
-                3 => tsig(&alg, time, fudge.wrapping_add(1), &mac, id, err, &other), 4 => tsig(&alg, time, fudge, &near_octets(r, &mac, 0, 300), id, err, &other),
-                5 => tsig(&alg, time, fudge, &mac, id.swap_bytes(), err, &other), 6 => tsig(&alg, time, fudge, &mac, id, err ^ 1, &other), _ => tsig(&alg, time, fudge, &mac, id, err, &near_octets(r, &other, 0, 300)) };
+            let plain = |f: &(Labels, u64, u16, Vec<u8>, u16, u16, Vec<u8>)| format!("{} {} {} {} {} {} {}", hex(&wire_abs(&f.0)), f.1, f.2, hex(&f.3), f.4, f.5, hex(&f.6));
+            rdx_line = Some(format!("rdx 250 {} | {}", plain(&f1), plain(&f2)));
             (250u16, w1, w2)
         };
         let tname = if rt == 41 { "opt" } else { "tsig" };
@@ -1121,6 +1184,13 @@ fn svcb_cases(out: &mut Out, r: &mut Rng, n: u64) {
             out.begin(&c);
             out.oracle_case(&c, wx != wy, &format!("rdata_{}", tname));
             if let Some(tv) = &tagged { let x2 = x.clone(); if let Ok(obs) = catch(move || toks(&x2)) { out.case(&format!("rdh {} {}", rt, tv.join(" ")), &obs, true, "rdh"); } }
+            if let Some(line) = &rdx_line {
+                let (x2, y2) = (x.clone(), y.clone());
+                let oo = |o: Option<Ordering>| match o { Some(x) => ord(x), None => "None" };
+                if let Ok(obs) = catch(move || format!("{} {} {} {} {} {}", x2 == y2, ord(x2.canonical_cmp(&y2)), ord(x2.cmp(&y2)), oo(x2.partial_cmp(&y2)), ord(x2.canonical_cmp(&y2)), toks(&x2))) {
+                    out.case(line, &obs, wx != wy, "rdx");
+                }
+            }
             match catch(move || (x.canonical_cmp(&y), y.canonical_cmp(&x), x == y, y == x, x.cmp(&y), canon_rd(&x), canon_rd(&y), feed(&x), feed(&y))) {
                 Err(e) => chk(out, false, &format!("rdata_panic_{}", tname), &c, &e),
                 Ok((cc, ccr, eq, eqr, cm, bx, by, hx, hy)) => {
